@@ -1,7 +1,8 @@
 """Shared check logic of C03 (envelope layout / key schedule) and C04 (forged packets refused,
-no panic).  One Go harness (harness/root/cmd/c03) and one extracted Coq model (coq/extract/C03,
-linked as coq/extract/C04 so that the two checks never share a binary) serve both; each property
-has its own theorems, generator, oracles, evidence file and VIOLATION lines."""
+no panic).  One Go harness source (harness/root/cmd/c03, built once per property so that the two
+checks never share a binary) and one Coq model (Crypto/Envelope.v; extracted separately through
+coq/extract/C03 and the receive-path-only coq/extract/C04) serve both; each property has its own
+theorems, generator, oracles, evidence file and VIOLATION lines."""
 import hashlib
 import json
 
